@@ -1,6 +1,8 @@
 import Pi2.Sexp
 import Pi2.Diag
 import Pi2.Gen.Lemmas
+import Pi2.Nary
+import Pi2.MM.SliceVerify
 /-!
 # `pi2drv` — the Lean model behind the line protocol (one request per line, one answer per line)
 -/
@@ -298,6 +300,20 @@ def handle (line : String) : String :=
          | none => "(raise)"
          | some out => "(slices " ++ " ".intercalate (out.map fun (l, d) => s!"({hexAtomOfStr l} {mdbToStr d})") ++ ")")
       | _, _, _, _ => "bad-request"
+    | "mmcheck", [db, label] =>
+      -- the reference Metamath verifier (Pi2/MM/Verify.lean): does the `$p` labelled `label` verify in `db`?
+      match mdbOfSexp db, strOfHexAtom label with
+      | some db, some l => toString (MM.verifyLemma db l)
+      | _, _ => "bad-request"
+    | "mmwf", [db] =>
+      -- the hypotheses of `slice_verifies` (`WellFormedDb`) as a program
+      match mdbOfSexp db with
+      | some db => toString (MM.wellFormedDbB db)
+      | none => "bad-request"
+    | "mmcheckdb", [db] =>
+      match mdbOfSexp db with
+      | some db => toString (MM.verifyDb db)
+      | none => "bad-request"
     | "mmverify", [db, goal, .list ls, steps] =>
       match mmDbOfSexp db, mmTermOfSexp goal, ls.mapM mmLblOfSexp, natList? steps with
       | some db, some goal, some ls, some steps => s!"(verify {MM.mmVerify db goal ls steps} wf {db.wf})"
@@ -379,6 +395,13 @@ def handle (line : String) : String :=
       | some eqs =>
         (match NPat.matchListF fuel eqs [] with
          | none => "fuel" | some none => "none" | some (some r) => s!"(some {substToStr r})")
+      | none => "bad-request"
+    | "nary", [p] =>
+      match npatOfSexp p with
+      | some p =>
+        (match NPat.naryF fuel p with
+         | none => "fuel"
+         | some (h, as) => "(some " ++ npatToStr h ++ " (" ++ " ".intercalate (as.map npatToStr) ++ "))")
       | none => "bad-request"
     | "nmatches", [d, a, p] =>
       match npatOfSexp d, nat? a, npatOfSexp p with
